@@ -45,8 +45,7 @@ def const_texts(tier):
             else:
                 lit = "'" + body + "'"
             out.append(lit)
-            if tier == 'thorough' or l < 2:
-                out.append('f' + lit.replace('{', '{{').replace('}', '}}'))
+            out.append('f' + lit.replace('{', '{{').replace('}', '}}'))
     for l in range(0, n + 1):
         for t in itertools.product(BYTES_SIGMA, repeat=l):
             body = ''.join(t)
@@ -62,6 +61,25 @@ FSTR = ["f'{a}'", "f'{a!r}'", "f'{a:>{w}}'", "f'{a!s:{w}.{p}}'", "f'{a=}'", "f'{
         "f'{a}' f'{b}'", "f'{{{a}}}'", "f'{a:{{}}}'", "f'\\n{a}'", "f'{a}\\''", "f'{a:\\n}'", "f'{*a,}'", "f'{a,}'", "f'{(a:=1)}'", "f'{a!r:^{w}}'", "rf'{a}\\d'",
         "f'{a:}'", "f'{a:{b}}'", "f'{ {1: 2}[1] }'", "f'{ {1, 2} }'", "f'{a}\"'", "f\"{a}'\"", "f'''{a}'\"'''", "f'{b\"x\"}'", "f'{3.}'", "f'{3.:.2f}'", "f'{-1}'",
         "f'{a.b}'", "f'{a()}'", "f'{not a}'", "f'{a or b}'", "f'{yield}'", "f'{await a}'", "f'{a < b}'", "f'{a != b}'", "f'{a!=b!r}'"]
+
+
+def lambda_texts(tier):
+    """lambda with every valid parameter list of <=4 (5) items over the parameter forms (positional-only marker, defaults, *args, bare *,
+    keyword-only with and without default, **kwargs)"""
+    import ast
+    P = ['a', 'b=1', 'c', '/', '*', '*v', 'k', 'j=2', '**w']
+    out = []
+    for n in range(0, 5 if tier == 'quick' else 6):
+        for combo in itertools.product(P, repeat=n):
+            if len(set(x.split('=')[0].lstrip('*') for x in combo if x not in ('/', '*'))) != len([x for x in combo if x not in ('/', '*')]):
+                continue
+            t = 'lambda %s: a' % ', '.join(combo)
+            try:
+                ast.parse(t, mode='eval')
+            except SyntaxError:
+                continue
+            out.append(t)
+    return out
 
 
 def run_shard(args):
@@ -81,7 +99,7 @@ def run_shard(args):
                     seen.add(t)
                     texts.append((t, 'operators cost=%d' % c))
     else:
-        texts = [(t, 'constants') for t in const_texts(args[1])] + [(t, 'f-strings') for t in FSTR]
+        texts = [(t, 'constants') for t in const_texts(args[1])] + [(t, 'f-strings') for t in FSTR] + [(t, 'lambda signatures') for t in lambda_texts(args[1])]
     r = R.run_texts(PROP, 'unparse', texts)
     r.extra['_hashes'] = {c01.h64(t) for t, _ in texts}
     if texts:
@@ -107,9 +125,9 @@ def run(tier, seed):
     total.states = len(allh)
     total.nontrivial = total.outcomes.get('held ', 0) + sum(v for k, v in total.outcomes.items() if k.startswith('held'))
     rule = ('every expression text from: the expression sub-grammar of G_ref with <=%d non-default alternatives; the operator-and-parenthesis sub-grammar (%d alternatives, every operator '
-            'class, parentheses at every operand position, calls/subscripts/comprehension/lambda/conditional) with <=%d; %d constant and f-string forms; each parsed by Expr::parse, rendered with '
+            'class, parentheses at every operand position, calls/subscripts/comprehension/lambda/conditional) with <=%d; %d constant, f-string and lambda-signature forms; each parsed by Expr::parse, rendered with '
             'Display, re-parsed, compared up to ranges and ctx, rendered again (fixed point); states = distinct texts; non-trivial = texts the parser accepts (those are judged)'
-            % (d, gref.n_alternatives(OPG), d + 1, len(const_texts(tier)) + len(FSTR)))
+            % (d, gref.n_alternatives(OPG), d + 1, len(const_texts(tier)) + len(FSTR) + len(lambda_texts(tier))))
     return C.finish(PROP, tier, seed, t0, total, rule, ['self-relation on the real parser and unparser; Debug rendering with range/ctx erased is the equality'])
 
 
